@@ -47,7 +47,7 @@ for P in "$@"; do
   [ -n "$RP" ] && [ -f "$RP" ] && cp $RP $OUT/replay_$P.json
 done
 git -C /repo checkout -- .
-( cd /verif && git checkout -- evidence 2>/dev/null )
+( cd /verif && git checkout -- evidence lean/GFS/Generated 2>/dev/null )
 echo "checks:$RESULTS"
 cat > $OUT/meta.json <<JSON
 {"name": "$NAME", "breaks_property": "$1", "confirmed": {"build": "$BUILD", "existing_suite": "$SUITE", "demo_with_change": "$DWITH", "demo_without_change": "$DWITHOUT"},
